@@ -308,10 +308,10 @@ func (p *pkgCtx) calleeName(c *ast.CallExpr) string {
 }
 
 type row struct {
-	method                      string
-	verifies, sameVal, samePK   bool
-	notes                       []string
-	gates                       []string
+	method                    string
+	verifies, sameVal, samePK bool
+	notes                     []string
+	gates                     []string
 }
 
 func (r *row) note(f string, a ...any) { r.notes = append(r.notes, fmt.Sprintf(f, a...)) }
@@ -769,8 +769,8 @@ func main() {
 
 	// ---- validatorapi: direct subscriber sites, call graph, rows ------------------------------
 	type fnInfo struct {
-		decl   *ast.FuncDecl
-		direct bool
+		decl    *ast.FuncDecl
+		direct  bool
 		callees map[types.Object]bool
 	}
 	fns := map[types.Object]*fnInfo{}
